@@ -32,12 +32,12 @@ Max4 == <<65535, 65535, 65535, 65535>>
 MaxInt == 2147483647
 
 TopicsQ == {<<>>, <<65>>, <<255>>}
-TopicsT == BoundedSeq({0, 65, 255}, 2)
+TopicsT == TopicsQ \cup {<<65, 255>>, <<255, 0>>}
 PartsQ  == {0, 256, 65536, MaxInt}
 PartsT  == {0, 1, 255, 256, 65535, 65536, MaxInt}
 AcksQ   == {-1, 0, 1}
 CorrsQ  == {0, 65536, 16777215}
-CorrsT  == {0, 1, 2, 255, 256, 65535, 65536, 16777214, 16777215}
+CorrsT  == {0, 255, 256, 65536, 16777215}
 PayloadSet == BoundedSeq(PayloadBytes, 2)
 
 PPartSet  == [partition : {0, MaxInt}, error : {-1, 3}, off : {Z4, Max4}]
